@@ -363,6 +363,31 @@ def expected_node_sets(sg, fi, fj, method):
     return out
 
 
+def ring_node_bounds(sg, fi, fj):
+    """For a bicubic query in the outermost ring of cells: list of (must, may) node-index sets, one per cell that may
+    legitimately serve the query (a query within 1e-9 of a grid line may be served from either side).  `must` = the part of the 4x4
+    stencil of the true cell that exists in the sub-grid; `may` = must plus the nodes a completion of the stencil from the
+    sub-grid's own nodes can use: the three rows / columns nearest to an edge the stencil crosses."""
+    nr, nc = sg['nrows'], sg['ncols']
+
+    def axis(k0, n):
+        want = [k for k in range(k0 - 1, k0 + 3)]
+        inside = {k for k in want if 0 <= k < n}
+        extra = set(inside)
+        if want[0] < 0:
+            extra |= set(range(0, min(3, n)))
+        if want[-1] > n - 1:
+            extra |= set(range(max(0, n - 3), n))
+        return inside, extra
+    out = []
+    for r0 in cells_along(fi, nr, 0, 0) or [true_cell(sg, fi, fj)[0]]:
+        for c0 in cells_along(fj, nc, 0, 0) or [true_cell(sg, fi, fj)[1]]:
+            ri, re_ = axis(r0, nr)
+            ci, ce = axis(c0, nc)
+            out.append((frozenset(r * nc + c for r in ri for c in ci), frozenset(r * nc + c for r in re_ for c in ce)))
+    return out
+
+
 def true_cell(sg, fi, fj):
     r0 = min(max(_floor(fi), 0), sg['nrows'] - 2)
     c0 = min(max(_floor(fj), 0), sg['ncols'] - 2)
